@@ -166,6 +166,16 @@ func runProp[C any](t *testing.T, id string, gen func(*rapid.T) C, run func(C) *
 	})
 }
 
+func getenv(k string) string { return os.Getenv(k) }
+
+// writeFail records a failing case found outside rapid (fixed vectors, enumerations) for the driver.
+func writeFail(t *testing.T, id string, caseJSON []byte, viol []Dev) {
+	if fp := os.Getenv("VERIF_FAIL_OUT"); fp != "" {
+		bz, _ := json.MarshalIndent(failFile{Property: id, Test: t.Name(), Case: caseJSON, Deviations: viol}, "", " ")
+		_ = os.WriteFile(fp, bz, 0o644)
+	}
+}
+
 func fmtDevs(ds []Dev) string {
 	var sb strings.Builder
 	for i, d := range ds {
